@@ -27,23 +27,25 @@ pub struct PropertyDef {
     /// re-execute a replay case; Some(violation) if it still violates
     pub replay: fn(&Value) -> Result<Option<Violation>, String>,
     pub level: &'static str,
+    /// re-execute one run of the batch with minimisation enabled (phase 2)
+    pub rerun: Option<fn(Tier, u64, u64) -> Option<Violation>>,
 }
 
 pub fn registry() -> Vec<PropertyDef> {
     vec![
-        PropertyDef { id: "C01", run: c01::run, replay: c01::replay, level: "exploration" },
-        PropertyDef { id: "C02", run: c02::run, replay: c02::replay, level: "exploration" },
-        PropertyDef { id: "C03", run: c03::run, replay: c03::replay, level: "exploration" },
-        PropertyDef { id: "C04", run: c04::run, replay: c04::replay, level: "exploration" },
-        PropertyDef { id: "C05", run: c05::run, replay: c05::replay, level: "exploration" },
-        PropertyDef { id: "C07", run: c07::run, replay: c07::replay, level: "fault_enumeration" },
-        PropertyDef { id: "C11", run: c11::run, replay: c11::replay, level: "fault_enumeration" },
-        PropertyDef { id: "C12", run: c12::run, replay: c12::replay, level: "exploration" },
-        PropertyDef { id: "C14", run: c14::run, replay: c14::replay, level: "exploration" },
-        PropertyDef { id: "C15", run: c15::run, replay: c15::replay, level: "exploration" },
-        PropertyDef { id: "C19", run: c19::run, replay: c19::replay, level: "fault_enumeration" },
-        PropertyDef { id: "C18", run: c18::run, replay: c18::replay, level: "exploration" },
-        PropertyDef { id: "C13", run: c13::run, replay: c13::replay, level: "fault_enumeration" },
+        PropertyDef { id: "C01", run: c01::run, replay: c01::replay, level: "exploration", rerun: Some(c01::rerun) },
+        PropertyDef { id: "C02", run: c02::run, replay: c02::replay, level: "exploration", rerun: Some(c02::rerun) },
+        PropertyDef { id: "C03", run: c03::run, replay: c03::replay, level: "exploration", rerun: Some(c03::rerun) },
+        PropertyDef { id: "C04", run: c04::run, replay: c04::replay, level: "exploration", rerun: Some(c04::rerun) },
+        PropertyDef { id: "C05", run: c05::run, replay: c05::replay, level: "exploration", rerun: Some(c05::rerun) },
+        PropertyDef { id: "C07", run: c07::run, replay: c07::replay, level: "fault_enumeration", rerun: Some(c07::rerun) },
+        PropertyDef { id: "C11", run: c11::run, replay: c11::replay, level: "fault_enumeration", rerun: None },
+        PropertyDef { id: "C12", run: c12::run, replay: c12::replay, level: "exploration", rerun: Some(c12::rerun) },
+        PropertyDef { id: "C14", run: c14::run, replay: c14::replay, level: "exploration", rerun: Some(c14::rerun) },
+        PropertyDef { id: "C15", run: c15::run, replay: c15::replay, level: "exploration", rerun: Some(c15::rerun) },
+        PropertyDef { id: "C19", run: c19::run, replay: c19::replay, level: "fault_enumeration", rerun: None },
+        PropertyDef { id: "C18", run: c18::run, replay: c18::replay, level: "exploration", rerun: Some(c18::rerun) },
+        PropertyDef { id: "C13", run: c13::run, replay: c13::replay, level: "fault_enumeration", rerun: Some(c13::rerun) },
     ]
 }
 
@@ -116,7 +118,22 @@ pub fn check(id: &str, tier: Tier, seed: u64) -> i32 {
         }
     };
     let mut ev = Evidence::new(id, tier, seed, def.level);
-    let found = (def.run)(tier, seed, &mut ev);
+    // phase 1: detect only; phase 2: minimise the first few violating runs
+    crate::report::set_minimise(false);
+    let raw = (def.run)(tier, seed, &mut ev);
+    crate::report::set_minimise(true);
+    let mut found = vec![];
+    for (i, v) in raw.into_iter().enumerate() {
+        if i < 4 {
+            if let Some(rerun) = def.rerun {
+                if let Some(min) = rerun(tier, seed, v.run) {
+                    found.push(min);
+                    continue;
+                }
+            }
+        }
+        found.push(v);
+    }
     let known = known_for(id);
     let mut verdict = Verdict {
         violations: vec![],
